@@ -208,6 +208,11 @@ fn assemble(
 }
 
 /// Keys (other than `except`) usable as strangers: fresh Ed25519 seeds outside the pool range.
+/// 112 further stranger identities (56 seeds outside the pool, each under both of its key ids).
+pub fn stranger_wide(i: usize) -> KeySpec {
+    KeySpec::Ed { seed: 200 + (i % 56) as u8, pkcs8: (i / 56) % 2 == 0 }
+}
+
 pub fn stranger(i: u8) -> KeySpec {
     KeySpec::Ed { seed: 200u8.wrapping_add(i % 40), pkcs8: true }
 }
